@@ -46,18 +46,21 @@ def _wsum(weights, a):
     return tot
 
 
-def exact(ctx, n, ratio, xi, dt, lead0=False, entry='response_series'):
+def exact(ctx, n, ratio, xi, dt, lead0=False, entry='response_series', others=None):
     T = ratio * dt
     a = ctx.arr('a', n)
     lib = ctx.lib
     periods = [0.0, T] if lead0 else [T]
+    if others:
+        # the period under test sits among other periods, in an order that is not ascending: row k is periods[k]'s response
+        periods = ([0.0] if lead0 else []) + [o * T for o in others[:1]] + [T] + [o * T for o in others[1:]]
     if entry == 'response_series':
         ru, rv, ra = lib.sdof.response_series(a, dt, periods, xi)
     elif entry == 'nigam':
         ru, rv, ra = lib.sdof.nigam_and_jennings_response(a, dt, periods, xi)
     else:
         ru, rv, ra = lib.AccSignal(a, dt).response_series(response_times=ctx.np.array(periods), xi=xi)
-    row = 1 if lead0 else 0
+    row = periods.index(T)
     ctx.observe('u', ru[row])
     ctx.observe('v', rv[row])
     ctx.observe('a', ra[row])
@@ -169,6 +172,10 @@ def obligations(tier, seed):
             # every entry point at the damping boundaries as well as at a typical value
             for xi in (0, 0.05, 0.999):
                 yield Ob('exact', {'n': 5, 'ratio': 10, 'xi': xi, 'dt': 0.01, 'lead0': lead0, 'entry': entry}, query_ms=60000)
+    for entry in ('response_series', 'nigam', 'object'):
+        for lead0 in (False, True):
+            yield Ob('exact', {'n': 5, 'ratio': 10, 'xi': 0.05, 'dt': 0.01, 'lead0': lead0, 'entry': entry, 'others': [2.3, 0.4]},
+                     query_ms=60000)
     for lead0 in (False, True):
         yield Ob('entry_points', {'n': 5, 'ratio': 7.3, 'xi': 0.05, 'dt': 0.01, 'lead0': lead0})
     # seeded random members of the grid interior
